@@ -35,7 +35,8 @@ func runGC(s *sink, c *kit.Ctx, i int, st *detStats) {
 	otherXR := xrGVK(ctrlNames[(indexOf(ctrlNames, name)+1)%len(ctrlNames)])
 
 	sw := sim.NewWorld(theScheme, uint64(i)+1)
-	w := newWorld(worldPlain, sw.Client("engine-cache"))
+	ec := sw.Client("engine-cache")
+	w := newWorld(worldPlain, ec)
 	r0 := &recorder{w: w, g: -1}
 
 	// XRs of this controller and their references (the oracle's input, kept as generated)
@@ -100,7 +101,22 @@ func runGC(s *sink, c *kit.Ctx, i int, st *detStats) {
 		}
 	}
 	before, _ := w.eng.GetWatches(name)
+	// in a fifth of the cases the collector's listing of the XRs fails (plain API errors and the
+	// errors of a discovery layer that hiccups): then it must not collect anything
+	listFault := ""
+	if rng.IntN(5) == 0 {
+		out := []sim.Outcome{sim.ServerError, sim.Timeout, sim.NotServed, sim.Unavailable, sim.Missing}[rng.IntN(5)]
+		listFault = out.String()
+		ec.FaultFn = func(_ int, verb string, _ sim.Key) sim.Outcome {
+			if verb == "list" {
+				return out
+			}
+			return sim.OK
+		}
+		s.Count("gc.cases_with_failing_xr_list", 1)
+	}
 	err := r0.GC(name)
+	ec.FaultFn = nil
 	after, _ := w.eng.GetWatches(name)
 	s.Count("gc.cases", 1)
 	s.Count("gc.xrs_listed", int64(nXR))
@@ -124,7 +140,16 @@ func runGC(s *sink, c *kit.Ctx, i int, st *detStats) {
 		return map[string]any{"controller": name, "xr_kind": xr.String(), "xr_references": xrDesc, "watches_before": widStrs(before), "watches_after": widStrs(after),
 			"handed_to_StopWatches": handed, "watch": widStr(x), "live_registrations_now": n, "registrations": regSummaries(rel), "gc_error": fmt.Sprint(err)}
 	}
-	if err == nil {
+	if listFault != "" {
+		// the listing failed: whatever the collector returns, every watch that ran before still runs
+		for _, x := range before {
+			if live, _ := liveCount(w, name, x); !afterSet[x] || live == 0 {
+				wt := wit(x)
+				wt["xr_list_failed_with"] = listFault
+				s.Violate("gc-stops-watch-although-listing-xrs-failed", caseName, fmt.Sprintf("the collector could not list the XRs (%s) yet the %s watch on %s was stopped", listFault, x.Type, x.GVK.String()), wt)
+			}
+		}
+	} else if err == nil {
 		for _, x := range before {
 			stopped := !afterSet[x]
 			live, _ := liveCount(w, name, x)
